@@ -62,8 +62,8 @@ def setters_ob(name, ks=-1, ku=-1, kh=-1, kx=-1, kp=-1, kq=-1, kf=-1, port=None,
 def obligations(tier):
     q = tier == "quick"
     RT, SP = ["VP_ONLY_ROUNDTRIP"], ["VP_ONLY_SPLIT"]
-    ns, nr, na, nu = (5, 4, 3, 2) if q else (7, 6, 6, 5)
-    T = 900 if q else 2400
+    ns, nr, na, nu = (5, 4, 3, 2) if q else (6, 5, 5, 4)
+    T = 900 if q else 3000
     obs = [
         parse_ob("split_any", ns + 1, extra=SP + ["VP_WIT_SCHEME"], timeout=T,
                  desc="RFC 3986 components + completeness: any string <= %d bytes, all 8 flag combinations" % (ns + 1)),
